@@ -27,6 +27,18 @@ fn main() {
                     _ => {}
                 }
             }
+            // a run that does not end (an interpreter loop that no step budget covers) is inconclusive, not a verdict:
+            // far above the longest run on the unchanged tree (quick < 1 min, thorough < 15 min on 16 cores)
+            let limit_s: u64 = std::env::var("RV_WATCHDOG_S").ok().and_then(|s| s.parse().ok()).unwrap_or(match tier {
+                Tier::Quick => 45 * 60,
+                Tier::Thorough => 4 * 3600,
+            });
+            let id2 = id.clone();
+            std::thread::spawn(move || {
+                std::thread::sleep(std::time::Duration::from_secs(limit_s));
+                eprintln!("[rv] {}: still running after {} s of wall clock: inconclusive", id2, limit_s);
+                std::process::exit(2);
+            });
             let ctx = Ctx::new(&id, tier, seed, None);
             if !rv::checks::run(&ctx) {
                 eprintln!("unknown property {}", id);
